@@ -35,14 +35,19 @@ LR == L \cup {"static"}             \* ... in the return type (no elision in ret
 \*   stv    StV<'1,'2>           { f: &'p OpLt<'q>, s: DiplomatSlice<'q, u8> }: one field mentions BOTH lifetimes; the field's type
 \*                               implies 'q: 'p on the definition (inferred by Rust, and by Diplomat: it must be restated)
 Slots(k) == IF k \in {"opq", "optopq", "slice", "st1", "pself"} THEN 1 ELSE 2
-IsStruct(k) == k \in {"st1", "st2", "st2b", "nst2", "stv"}
+\*   st2w   St2w<'1,'2>          the same definition as st2b with the bound written in a WHERE clause (struct St2w<'p,'q> where 'q: 'p)
+\*   stvo   StVo<'1,'2>          { f: Option<&'p OpLt<'q>>, s: DiplomatSlice<'q, u8> }: as stv, the reference sits inside an Option --
+\*                               the field's type still implies 'q: 'p
+IsStruct(k) == k \in {"st1", "st2", "st2b", "st2w", "nst2", "stv", "stvo"}
 \* the struct definitions as data: for every field, which definition lifetimes its type mentions.  A host object made from a
 \* struct must hold on to field f for as long as anything borrowing for lifetime l lives, for every l that f's type mentions.
 StructFields == [st1  |-> <<[n |-> "f", lts |-> {"p"}]>>,
                  st2  |-> <<[n |-> "f", lts |-> {"p"}], [n |-> "g", lts |-> {"q"}]>>,
                  st2b |-> <<[n |-> "f", lts |-> {"p"}], [n |-> "g", lts |-> {"q"}]>>,
+                 st2w |-> <<[n |-> "f", lts |-> {"p"}], [n |-> "g", lts |-> {"q"}]>>,
                  nst2 |-> <<[n |-> "a", lts |-> {"p"}], [n |-> "b", lts |-> {"q"}]>>,
                  stv  |-> <<[n |-> "f", lts |-> {"p", "q"}], [n |-> "s", lts |-> {"q"}]>>,
+                 stvo |-> <<[n |-> "f", lts |-> {"p", "q"}], [n |-> "s", lts |-> {"q"}]>>,
                  \* sto: StO<'p,'q> { f: &'p Opq, s: DiplomatSlice<'p,u8>, o: DiplomatOption<DiplomatStrSlice<'q>>,
                  \*                   w: DiplomatOption<DiplomatSlice<'p,u16>>, n: DiplomatOption<u8> } -- optional fields borrow like plain ones
                  sto  |-> <<[n |-> "f", lts |-> {"p"}], [n |-> "s", lts |-> {"p"}], [n |-> "o", lts |-> {"q"}], [n |-> "w", lts |-> {"p"}],
@@ -51,7 +56,7 @@ FieldsFor(k, l) == {StructFields[k][i].n : i \in {j \in 1..Len(StructFields[k]) 
 \* fields that are BUFFERS the binding has to copy into native memory (slices, strings, optional or not): the copy made for a field
 \* whose type mentions lifetime l must live in memory that is released only when everything borrowing for l is gone -- never in the
 \* arena that is dropped when the call returns
-BufferFields == [st1 |-> {}, st2 |-> {}, st2b |-> {}, nst2 |-> {}, stv |-> {"s"}, sto |-> {"s", "o", "w"}]
+BufferFields == [st1 |-> {}, st2 |-> {}, st2b |-> {}, st2w |-> {}, nst2 |-> {}, stv |-> {"s"}, stvo |-> {"s"}, sto |-> {"s", "o", "w"}]
 BuffersFor(k, l) == FieldsFor(k, l) \cap BufferFields[k]
 EdgeKind(k) == IF k = "slice" THEN "slice" ELSE IF IsStruct(k) THEN "struct" ELSE "opaque"
 DefLt(k, i) == IF i = 1 THEN "p" ELSE "q"           \* names of the struct definitions' lifetimes
@@ -90,7 +95,7 @@ RefImplied(s) ==
   \cup (IF s.self.kind = "sf2b" THEN {<<s.self.slots[2], s.self.slots[1]>>, <<s.self.slots[3], s.self.slots[1]>>} ELSE {})
 \* bounds written on the definitions of the types used, instantiated at the use
 DefImplied(s) ==
-  {<<s.params[i].slots[2], s.params[i].slots[1]>> : i \in {j \in 1..Len(s.params) : s.params[j].kind \in {"st2b", "stv"}}}
+  {<<s.params[i].slots[2], s.params[i].slots[1]>> : i \in {j \in 1..Len(s.params) : s.params[j].kind \in {"st2b", "st2w", "stv", "stvo"}}}
   \cup (IF s.self.kind = "sf2b" THEN {<<s.self.slots[3], s.self.slots[2]>>} ELSE {})
 Named(R) == {pr \in R : pr[1] \in L /\ pr[2] \in L /\ pr[1] # pr[2]}
 \* transitive closure by repeated squaring: n rounds close every chain of up to 2^n links, so Cardinality(L) rounds are exact
